@@ -35,10 +35,10 @@ REG.bounded_check("C18.layering", ["C18"], "C18.bounded",
                   bound="two chained config files x every subset of <= 3 of {command line, main a.b / a / top-level, base a.b / a / top-level} x extend_config first/last x 5 module paths, integer and list option; falsy and truthy command-line values over a config file")
 REG.bounded_check("C08.reference_resolver", ["C08"], "C08.bounded",
                   covers=["Signature.check_call_preprocessed / bind_arguments (as used by overload resolution)", "@overload collection (extensions.py, arg_spec.py)", "union decomposition (_check_param_type_compatibility)"],
-                  bound="7 overload sets (3 signatures, arity 1-2, overlapping and shadowed) x all literal argument tuples of length <= 2 over 5 literals; one union-argument and one Any-argument case")
+                  bound="7 overload sets (3 signatures, arity 1-2, overlapping and shadowed) x all literal argument tuples of length <= 2 over 5 literals; union arguments passed positionally and by keyword, one Any-argument case")
 REG.bounded_check("C20.reference_denotation", ["C20"], "C20.bounded",
                   covers=["ConditionEvaluator.visit_is_of_type / visit_BoolOp / visit_Compare", "EvaluateVisitor.visit_show_error / _evaluate_ret", "arg_spec._maybe_make_evaluator_sig", "signature argument positions"],
-                  bound="8 evaluator bodies (if / nested if / not / and / or over is_of_type and is_provided, return, show_error) x {literal int, literal str, Union[int, str]} x {y omitted, positional, keyword}")
+                  bound="8 evaluator bodies (if / nested if / not / and / or over is_of_type and is_provided, return, show_error) x {literal int, literal str, Union[int, str]} x {y omitted, positional, keyword}; 4 bodies over two union parameters (and / or / not with a nested condition) x 9 argument pairs; 8 calls on the UNKNOWN / KEYWORD / POSITIONAL / DEFAULT kinds of keyword-only and positional-only parameters with defaults")
 REG.bounded_check("C01.instrumented_execution", ["C01"], "C01.bounded",
                   covers=["NameCheckVisitor (assignment, branching, loops, try/except, narrowing, unpacking, indexing, calls to annotated and generic functions, match)",
                           "stacked_scopes lookups", "implementation impl functions", "patma"],
@@ -49,5 +49,19 @@ REG.bounded_check("C10.determinism", ["C10"], "C10.bounded",
 REG.bounded_check("C19.literal_operations", ["C19"], "C19.bounded",
                   covers=["NameCheckVisitor.visit_BinOp / visit_UnaryOp / _check_dunder_call", "signature._maybe_perform_call", "attributes._get_attribute_from_known / _get_attribute_from_mro",
                           "implementation subscript impls (tuple / str / list __getitem__)"],
-                  bound="12 literals x 9 binary operators x 12 literals (str/bytes % excluded: C17), 4 unary operators, 6 attribute names, 3 receivers x 6 literal indices, module/class/enum operands x 8 attributes and 3 operators: "
+                  bound="12 literals x 9 binary operators x 12 literals (str/bytes % excluded: C17), 4 unary operators, 6 attribute names, 3 receivers x 7 literal indices, module/class/enum operands x 8 attributes and 3 operators: "
                         "diagnosed <=> CPython raises TypeError/AttributeError (IndexError on the tuple), inferred Literal == evaluated result in value and type; known findings D30/D31 skipped")
+REG.bounded_check("C09.scope_primitives", ["C09"], "C09.prims",
+                  covers=["FunctionScope.get_combined_scope (cross-check of the proved kernel)", "FunctionScope.set (kill)", "FunctionScope.subscope (isolation)", "FunctionScope.get_local (use recording)"],
+                  bound="get_combined_scope on all lists of <= 2 (a third of the universe for 3) branch scopes over 31 scopes (names x, y, LEAVES_SCOPE / LEAVES_LOOP markers) x ignore_leaves_scope; one kill / isolation / use-recording scenario")
+REG.bounded_check("C09.sandwich", ["C09"], "C09.bounded",
+                  covers=["NameCheckVisitor.visit_If / visit_For / visit_While / _handle_loop_else / visit_Try / visit_try_except / visit_With / visit_Break / visit_Continue / visit_Return / visit_Raise",
+                          "FunctionScope.suppressing_subscope / loop_scope / combine_subscopes / get_local", "resolve_name undefined / possibly undefined reporting"],
+                  bound="1200 (quick) / 7500 (thorough) generated statement skeletons of nesting depth <= 2-4 (assignments of distinct literals, opaque conditions, if/else, while/for with else, while True, break/continue, "
+                        "try/except/else/finally, with, return/raise as last statement of a block; one variable; nested functions and global/nonlocal not generated): strict <= reported <= liberal against an independent "
+                        "reaching-definitions analysis; mismatches explained by the edges of known findings D36-D39 are counted, not reported")
+REG.bounded_check("C02.conditions", ["C02"], "C02.conditions",
+                  covers=["NameCheckVisitor.visit_BoolOp / visit_UnaryOp (not) / constraint_from_condition", "stacked_scopes.extract_constraints / AndConstraint.make / OrConstraint.make / OrConstraint.apply / invert",
+                          "the isinstance / is / truthiness / == condition-to-constraint translation"],
+                  bound="10 atomic conditions on x: Union[int, str, None] (isinstance, is None, truthiness, ==, an opaque call), all ordered pairs under and / or, 80 three-operand shapes with not / nesting, "
+                        "x in {1, 0, 's', '', None} x both results of the opaque call: the value that takes a branch at run time belongs to the type x is narrowed to there")
